@@ -1,9 +1,16 @@
 #!/usr/bin/env python3
-"""C05 — server binds packets to sessions by ClientID; sessions never mix (DESIGN.md §3 C05, tier 1)."""
+"""C05 — server binds packets to sessions by ClientID; sessions never mix (DESIGN.md §3 C05).
+
+Tier 1: turbotunnelMode + QueuePacketConn + ClientMap under the scheduler (virtual time).
+Tier 2: the clauses above turbotunnelMode (token check, one accepted connection per session, client
+address of the accepted connection) on the real stack over loopback WebSockets (sequential enumeration)."""
 import os
 import sys
 
 sys.path.insert(0, os.path.join(os.path.dirname(os.path.abspath(__file__)), "..", "lib"))
+import glob
+
+import enumlib  # noqa: E402
 import sched  # noqa: E402
 import vlib  # noqa: E402
 import server_common  # noqa: E402
@@ -32,11 +39,26 @@ def main():
         total = 900
     summary, tot, samples, exh = sched.run_passes(rep, binary, passes, total)
     sched.sched_coverage(rep, summary, tot, samples, exh)
+    # tier 2: real stack on loopback
+    try:
+        files = {"zz_verif_" + os.path.basename(f): f for f in glob.glob(os.path.join(vlib.VERIF, "harness", "serverlib", "*_test.go"))}
+        eb = enumlib.build("serverlib-enum", "server/lib", files)
+        res = enumlib.run(eb, "TestVerifEnumC05T2", tier, 150 if tier == "quick" else 600)
+        for f in res["findings"]:
+            rep.finding(f["sig"], f["msg"], {"input": f["input"], "kind": "real-stack scenario (loopback WebSocket carriers, kcp-go, smux)", "test": "TestVerifEnumC05T2"})
+        rep.coverage["real_stack_tier2"] = {"scenarios": res["evaluations"], "sections": res["sections"], "completed": res["exhaustive"], "stop_reason": res.get("stop_reason"),
+                                            "note": "Transport.Listen on a loopback port; carriers are real gorilla WebSocket connections; kcp-go and smux on both ends; sequential enumeration of token variants and carrier schedules"}
+        rep.coverage["traces_validated_against_impl"] += res["evaluations"]
+        if not res["exhaustive"]:
+            rep.coverage["exhaustive"] = False
+    except vlib.EngineError as e:
+        rep.engine_errors.append(str(e))
     rep.assumptions += [
         "virtual time: computation is instantaneous relative to timers (the ClientMap sweeper never closes a queue between SendQueue() and the send that follows it)",
         "carriers are in-memory byte streams (what websocketconn.Conn is to turbotunnelMode); KCP/smux are replaced by a stand-in that reads packets, looks the client address up on a session's first packet (as acceptStreams does) and answers each packet",
         "SendQueue critical sections of ClientMap.lock and Get sections of clientIDMap.lock are declared commuting (argument in the harness); checked at run time to contain no synchronisation",
-        "the token check and the one-Accept-per-session clause live in ServeHTTP / KCP+smux and are not covered by this tier",
+        "tier 2 runs in real time on loopback: its safety oracles compare bytes and counts only; a scenario that does not complete within 40 s is re-run alone three times before it is reported; trouble with the loopback listener marks the run incomplete instead of failing it",
+        "tier 2 judges 'no connection was produced' after a barrier (a valid session set up afterwards on the same listener has been accepted and served)",
     ]
     rep.finish()
 
